@@ -10,6 +10,13 @@ import KrakenModel.Model.ForceCleanup
    * cleanup-removed-non-idle / cleanup-kept-idle
                                 a normal pass (no lower threshold, no LRU eviction possible) did not delete
                                 exactly the unprotected files past the idle limit or the TTL
+   * deleted-non-idle-file / kept-idle-file
+                                the same rule judged against the accesses made *through the API* (ghost: per file
+                                the time of its last create / read / metadata write, as the transcript shows them):
+                                the on-disk last-access time may lag an access by less than the map's time
+                                resolution (+1 s of sidecar granularity), so a pass must not delete an unprotected,
+                                non-expired file accessed within TTI − resolution − 1 s, and must not keep an
+                                unprotected file whose last possible access is more than TTI ago
    * policy-order-violated      the usage-driven pass deleted a file while an unprotected candidate that the
                                 policy ranks strictly before it was kept
    * policy-stopped-early       … or stopped before the byte budget was met while candidates remained
@@ -46,6 +53,9 @@ structure St where
   clock : Int                    -- API-level ghost clock: cfg now + ticks
   prev : List Snap := []         -- previous directory snapshot (implementation)
   lastOp : List String := []
+  lo : List (String × Int) := [] -- per file: time of the last certain access through the API
+  hi : List (String × Int) := [] -- per file: latest time at which an access may have refreshed the sidecar
+  manip : List String := []      -- files whose sidecar was written explicitly (setlat): ghost not applicable
 
 def init (toks : List String) : Option St := do
   let cap ← (kv? toks "cap").bind nat?
@@ -96,12 +106,50 @@ def fsMonitors (s : St) (next : List Snap) : List String :=
         order ++ early
       | _, _ => []
     | _ => []
-  pf1 ++ pf2
+  let pf3 : List String := match s.lastOp with
+    | ["cleanupttl", tti, ttl, pct, _, _] =>
+      match tti.toInt?, ttl.toInt? with
+      | some tti, some ttl =>
+        if evictable then [] else
+        let ttlExpired (p : Snap) : Bool := ttl > 0 && s.clock - p.mtime > ttl
+        let open_ (p : Snap) : Bool := p.persist != some true && !(s.manip.contains p.name)
+        ((gone.filter open_).filterMap fun p =>
+          match s.lo.find? (·.1 == p.name) with
+          | some (_, a) =>
+            if !ttlExpired p ∧ s.clock - a ≤ tti - s.m.res - sec then
+              some s!"side=impl key=deleted-non-idle-file {p.name} was accessed through the API at {a}, {s.clock - a} ns before a pass with tti {tti} (time resolution {s.m.res}) deleted it; on-disk last access time {p.lat}"
+            else none
+          | none => none) ++
+        (if pct ≠ "0" then [] else
+          ((s.prev.filter open_).filter (fun p => next.any (·.name == p.name))).filterMap fun p =>
+            match s.hi.find? (·.1 == p.name) with
+            | some (_, a) =>
+              if s.clock - a > tti then
+                some s!"side=impl key=kept-idle-file {p.name} was last accessed through the API at {a}, {s.clock - a} ns before a pass with tti {tti} that kept it"
+              else none
+            | none => none)
+      | _, _ => []
+    | _ => []
+  pf1 ++ pf2 ++ pf3
 
 def step (s : St) (kind : String) (args impl : List String) : Option (St × StepOut) :=
   if kind ≠ "op" then none else
+  -- ghost of API accesses, from the implementation's results
+  let setK (l : List (String × Int)) (n : String) (t : Int) := (n, t) :: l.filter (·.1 != n)
+  let ok := impl.head? = some "ok"
+  let (lo, hi, manip) : List (String × Int) × List (String × Int) × List String :=
+    match args with
+    | ["create", n, _] =>
+      if ok then (setK s.lo n s.clock, setK s.hi n s.clock, s.manip.filter (· != n))
+      else (s.lo, setK s.hi n s.clock, s.manip)          -- `exist`: the entry may have been touched
+    | ["read", n] => if ok then (setK s.lo n s.clock, setK s.hi n s.clock, s.manip) else (s.lo, s.hi, s.manip)
+    | ["persist", n, _] => if ok then (setK s.lo n s.clock, setK s.hi n s.clock, s.manip) else (s.lo, s.hi, s.manip)
+    | ["unpersist", n] => if ok then (setK s.lo n s.clock, setK s.hi n s.clock, s.manip) else (s.lo, s.hi, s.manip)
+    | ["setlat", n, _] => (s.lo, s.hi, n :: s.manip)
+    | ["delete", n] => if ok then (s.lo.filter (·.1 != n), s.hi.filter (·.1 != n), s.manip) else (s.lo, s.hi, s.manip)
+    | _ => (s.lo, s.hi, s.manip)
   let fin (m : State) (obs : List String) (br : String) (clock : Int := s.clock) : Option (St × StepOut) :=
-    some ({ s with m, clock, lastOp := args }, { obs, branch := br })
+    some ({ s with m, clock, lastOp := args, lo, hi, manip }, { obs, branch := br })
   match args with
   | ["create", n, size] => do
     let size ← nat? size
@@ -156,7 +204,9 @@ def step (s : St) (kind : String) (args impl : List String) : Option (St × Step
     | none => none
     | some next =>
       let pf := fsMonitors s next
-      some ({ s with prev := next }, { obs := [listTok mine], branch := "fs", propfails := pf })
+      let alive (n : String) : Bool := next.any (·.name == n)
+      some ({ s with prev := next, lo := s.lo.filter (fun p => alive p.1), hi := s.hi.filter (fun p => alive p.1) },
+            { obs := [listTok mine], branch := "fs", propfails := pf })
   | _ => none
 
 def machine : Machine := { σ := St, name := "fstore", init := init, step := step }
